@@ -11,6 +11,7 @@ import os
 from ..match import facts, Q
 from ..srcmodel import (attr_chain, call_name, unparse, norm_text, walk_no_nested,
                         Model, AnalysisError)
+from ..dataflow import Origins
 from ..cfg import cfg_of
 from .. import excflow
 from ..match import calls_named, arg_of
@@ -284,11 +285,19 @@ def r4_single_funnel(run):
         fi = m.func(fname)
         calls = [c for c in ast.walk(fi.node) if isinstance(c, ast.Call)]
         parsers = [c for c in calls if call_name(c) in PARSE_FUNCS]
+        want = fi.params()[-1 if fname == "create_class_from_xml_string"
+                           else 0]
         ok = len(parsers) == 1 and attr_chain(parsers[0].func) == \
-            "defusedxml.ElementTree.fromstring" and \
-            unparse(arg_of(parsers[0], 0)) == fi.params()[-1 if fname ==
-                                                          "create_class_from_xml_string"
-                                                          else 0]
+            "defusedxml.ElementTree.fromstring"
+        if ok:
+            # the parsed text is the text parameter, possibly re-encoded
+            fcfg = cfg_of(fi, m)
+            pn = [nd for nd, c in fcfg.call_nodes("fromstring")
+                  if c is parsers[0]]
+            org = Origins(fcfg)
+            got = org.of(arg_of(parsers[0], 0), pn[0].id) if pn else set()
+            ok = bool(got) and {(a.kind, a.text) for a in got} == \
+                {("param", want)}
         run.check(ok, "R4", fi.qual + "::parser",
                   "parses its text argument with defusedxml only",
                   "parser calls: %s" % [unparse(c) for c in parsers], fi.loc())
